@@ -4,9 +4,14 @@ package filecachepb
 
 import (
 	"context"
+	"errors"
 	"time"
 
+	"github.com/AdguardTeam/AdGuardDNS/internal/access"
 	"github.com/AdguardTeam/AdGuardDNS/internal/agd"
+	"github.com/AdguardTeam/AdGuardDNS/internal/agdpasswd"
+	"github.com/AdguardTeam/AdGuardDNS/internal/dnsmsg"
+	"github.com/AdguardTeam/AdGuardDNS/internal/filter"
 	"github.com/AdguardTeam/AdGuardDNS/internal/profiledb/internal"
 	"github.com/AdguardTeam/golibs/logutil/slogutil"
 )
@@ -42,4 +47,59 @@ func VerifC14Store() {
 		}
 	}
 	verifReach("done")
+}
+
+// VerifC14LoadVersion: a restart restores the profiles from the cache file exactly
+// when the file was written with this build's cache version; a file of any other
+// version, older or newer, is reported as unsuitable and nothing of it is used.
+//
+//verif:harness name=H14f-load-version tier=quick,thorough bounds="cache with 0..1 profiles and a symbolic 32-bit version stored and loaded again by a new Storage" reach=done,restored,rejected-older,rejected-newer
+//verif:assume symbolic build: protobuf wire encoding and the file are ghosts (Unmarshal yields the fields of the message stored last); native replay uses the real encoding and a real file
+func VerifC14LoadVersion() {
+	env := verifNewStoreEnv()
+	defer env.close()
+	v := int32(nondetU32())
+	c := &internal.FileCache{SyncTime: time.Unix(1_700_000_000, 0), Version: v}
+	withProfile := verifChoice(2) == 1
+	if withProfile {
+		c.Profiles = []*agd.Profile{verifPlainProfile()}
+		c.Devices = []*agd.Device{{ID: "dev12345", Auth: &agd.AuthSettings{Enabled: false, PasswordHash: agdpasswd.AllowAuthenticator{}}}}
+	}
+	err := New(slogutil.NewDiscardLogger(), env.path(), 1000).Store(context.Background(), c)
+	verifAssert("store-succeeds", err == nil)
+
+	got, err := New(slogutil.NewDiscardLogger(), env.path(), 1000).Load(context.Background())
+	if v == internal.FileCacheVersion {
+		verifAssert("cache-of-this-version-is-restored", err == nil && got != nil && got.Version == v && len(got.Profiles) == len(c.Profiles) && len(got.Devices) == len(c.Devices))
+		if err == nil && got != nil && withProfile && len(got.Profiles) == 1 {
+			verifAssert("restored-profile-is-the-stored-one", got.Profiles[0].ID == "prof1234" && len(got.Profiles[0].DeviceIDs) == 1 && got.Profiles[0].DeviceIDs[0] == "dev12345")
+		}
+		verifReach("restored")
+	} else {
+		verifAssert("cache-of-another-version-is-rejected", got == nil && errors.Is(err, internal.CacheVersionError))
+		if v < internal.FileCacheVersion {
+			verifReach("rejected-older")
+		} else {
+			verifReach("rejected-newer")
+		}
+	}
+	verifReach("done")
+}
+
+// verifPlainProfile is a complete profile with concrete settings.
+func verifPlainProfile() *agd.Profile {
+	return &agd.Profile{
+		FilterConfig: &filter.ConfigClient{
+			Custom:       &filter.ConfigCustom{ID: "prof1234", UpdateTime: time.Unix(1700000000, 0)},
+			Parental:     &filter.ConfigParental{},
+			RuleList:     &filter.ConfigRuleList{},
+			SafeBrowsing: &filter.ConfigSafeBrowsing{},
+		},
+		Access:              access.EmptyProfile{},
+		BlockingMode:        &dnsmsg.BlockingModeNullIP{},
+		Ratelimiter:         agd.GlobalRatelimiter{},
+		ID:                  "prof1234",
+		DeviceIDs:           []agd.DeviceID{"dev12345"},
+		FilteredResponseTTL: 10 * time.Second,
+	}
 }
